@@ -78,5 +78,6 @@ if __name__ == "__main__":
         lines.append("| %s | %s | %s |" % (rid, "488 passed" if "488 passed" in t else t[:60], bad[:400] or "all 20 silent"))
         print(rid, "488" if "488 passed" in t else t[:60], {p: (rc, k, e) for p, (rc, k, e) in res.items()})
     lines.append(""); lines.append("%d of %d refactorings leave every check silent." % (len(results) - noisy, len(results)))
-    open(os.path.join(DST, "RESULTS.md"), "w").write("\n".join(lines) + "\n")
+    if not only:  # a partial run does not replace the table of the full one
+        open(os.path.join(DST, "RESULTS.md"), "w").write("\n".join(lines) + "\n")
     print("%d/%d silent" % (len(results) - noisy, len(results)))
